@@ -15,7 +15,7 @@ RULE = ('case idx -> protection mode (10 suites) x version x kind {5 plain sessi
         'buffer), exact-size heap blocks: a refused configuration must be visibly refused (reset 0 / CLOSED with an error) and stay so, an '
         'accepted one must complete a handshake and exchange data exactly, the minimum itself must be accepted; every offered region is '
         'checked against the caller block after each call; minimum-size servers of every layout also face a full-size client that sends a '
-        'certificate chain larger than the whole server input buffer in one unencrypted record (taken in pieces). reuse: one client context reset and used for four connections (with / without resumption) against servers that echo the extension and servers that do not, in six orders: after each handshake the negotiated flag equals the presence of the extension in that ServerHello; one server context (with / without session cache) reset for four clients of different buffer classes in four orders: no extension without a request, echo equal to this connection's request, records within this connection's limit and full-size again without one. distinct = (mode, version, client layout/limit, '
+        'certificate chain larger than the whole server input buffer in one unencrypted record (taken in pieces). reuse: one client context reset and used for four connections (with / without resumption) against servers that echo the extension and servers that do not, in six orders: after each handshake the negotiated flag equals the presence of the extension in that ServerHello; one server context (with / without session cache) reset for four clients of different buffer classes in four orders: no extension without a request, echo equal to the request of that connection, records within the limit of that connection and full-size again without one. distinct = (mode, version, client layout/limit, '
         'server layout/limit, echoed code) tuples.')
 ASSUMPTIONS = [
     'for the engine-split single buffer the caller cannot know the split point, so exact-fit checks use the shared and two-buffer layouts',
